@@ -61,6 +61,17 @@ CLAIMED = {
         "note": "Structural clause only: per-row enthalpy integrals, the cold-curve offset, tolerances and rounding are numeric and NOT decided. "
                 "Assumes scale flags are plain boolean parameters/constants (they are on the pinned tree); operand pairs with unknown scale are counted in the evidence, not guessed.",
     },
+    "C07": {
+        "category": "other",
+        "technique": "static analysis: typestate of column views and row indices across buffer-replacing table methods (derived from the table class), bottom-up may-insert "
+                     "summaries over the call graph, path-sensitive on the insertion count (n == 0 keeps views valid), guard-aware copy-coherence (contradiction) rule for rebased indices",
+        "text": "Decides the index/view bookkeeping clause of C07 for any number of insertions: in the pocket sweep and all its callers no column view is used after a row "
+                "insertion without re-fetching (I1), row indices handed to a callee that may insert are re-bound from its result (I2), and when the code rebases one alias of "
+                "a row index by the inserted-row count every live alias is rebased too (I3) - the defect that made the sweep stop early with two or more insertions above the pinch.",
+        "design_ref": "DESIGN.md 3.2 INVAL",
+        "note": "Structural clause only: the flattened values, the interpolated closing temperature, tolerance side and range end points are numeric and NOT decided. "
+                "Trusted: numpy view semantics; ProblemTable methods that assign self.data are the only buffer-replacing operations (derived on every run).",
+    },
 }
 
 _NOT_BUILT = "claimed in DESIGN.md but the check is not built yet in this round"
